@@ -10,6 +10,7 @@ package main
 import (
 	"fmt"
 	"go/types"
+	"regexp"
 	"strings"
 
 	"golang.org/x/tools/go/ssa"
@@ -351,7 +352,15 @@ type unsupported string
 func (u unsupported) Error() string { return "unsupported: " + string(u) }
 
 // typeKey is the heap key component for a type.
+var reByte = regexp.MustCompile(`\bbyte\b`)
+var reRune = regexp.MustCompile(`\brune\b`)
+
+// typeKey names a type for heap keys; byte/uint8 and rune/int32 are one type.
 func typeKey(T types.Type) string {
+	return reRune.ReplaceAllString(reByte.ReplaceAllString(typeKey0(T), "uint8"), "int32")
+}
+
+func typeKey0(T types.Type) string {
 	// named struct types that share one struct declaration (type URL url.URL) denote the
 	// same memory layout and convert freely through pointers: key them by the declaring type
 	if n, ok := T.(*types.Named); ok {
